@@ -57,6 +57,37 @@ impl RibQueryFixture {
         Self { rib, register, api }
     }
 
+    /// The same fixture around an existing `Rib` (e.g. the one a
+    /// `RibUnitRunner` writes to, see `verif::rib::rib`): the `PrefixesApi`
+    /// then answers from whatever `process_update` stored. A physical RIB
+    /// is never swapped, so the new `ArcSwap` keeps pointing at the
+    /// runner's `Rib`.
+    pub fn around(
+        rib: Arc<Rib>,
+        api_path: &str,
+        shortest_v4: u8,
+        shortest_v6: u8,
+    ) -> Self {
+        let rib = Arc::new(ArcSwap::new(rib));
+        let register = Arc::new(ingress::Register::new());
+        let limits = QueryLimits {
+            more_specifics: MoreSpecifics {
+                shortest_prefix_ipv4: shortest_v4,
+                shortest_prefix_ipv6: shortest_v6,
+            },
+        };
+        let api = PrefixesApi::new(
+            rib.clone(),
+            Arc::new(api_path.to_string()),
+            Arc::new(ArcSwap::from_pointee(limits)),
+            RibType::Physical,
+            None,
+            Arc::new(FrimMap::default()),
+            register.clone(),
+        );
+        Self { rib, register, api }
+    }
+
     /// The default limits of `QueryLimits::default()` as `(v4, v6)`.
     pub fn default_limits() -> (u8, u8) {
         let l = QueryLimits::default();
